@@ -40,6 +40,9 @@ impl Rng {
     pub fn pick<'a, T>(&mut self, xs: &'a [T]) -> &'a T {
         &xs[self.below(xs.len())]
     }
+    pub fn pick_str<'a>(&mut self, xs: &[&'a str]) -> &'a str {
+        xs[self.below(xs.len())]
+    }
     /// index chosen by integer weights
     pub fn weighted(&mut self, ws: &[u32]) -> usize {
         let total: u32 = ws.iter().sum();
